@@ -59,11 +59,11 @@ CLAIMED['C09'] = dict(
 
 CLAIMED['C06'] = dict(
     technique='symbolic execution of rustc MIR (M2S) of each graph operation from an ARBITRARY bounded graph state satisfying a representation invariant (one inductive step), StableGraph / map models, z3; counterexamples rebuilt through the public API and replayed against the invariant hook',
-    text='For remove_node, unexport, export, import, set/unset_instantiation_argument, alias_instance_export, unregister_package, define_type and '
-         'instantiate: from every graph state within the bounds (node/edge slots, map entries, argument indexes, packages) that satisfies the '
+    text='For remove_node, unexport, export, import, set/unset_instantiation_argument, alias_instance_export, unregister_package, define_type, '
+         'instantiate and set_node_name: from every graph state within the bounds (node/edge slots, map entries, argument indexes, packages) that satisfies the '
          'representation invariant RI, with arbitrary live arguments: no panic, RI holds afterwards, and the documented effect / error condition '
          'holds. One inductive step covers histories of any length made of these operations. Four genuine defects found this way were repaired '
-         '(fix: commits, see known_findings.json). register_package, set_node_name and "the graph still encodes" are outside the claim.',
+         '(fix: commits, see known_findings.json). register_package and "the graph still encodes" are outside the claim; node names are not part of the state view (set_node_name: no panic, RI and liveness preserved).',
     note='Trusted: RI as written in specs/c06.py (its clauses are also checked natively by the hook on every realised pre-state), petgraph/IndexMap/HashMap/HashSet models, '
          'uninterpreted types arena, subtype verdicts and name validity; stated realisability restrictions on pre-states; z3.',
     design='DESIGN.md section 3 / C06')
